@@ -232,6 +232,20 @@ impl SvgCfg {
         if m0 % 2 == 0 {
             return;
         }
+        // m0 = 5 or 7: only ONE of the image placement options is perturbed (and later restored): a setter history like
+        // size, gap, size', size - the other placement values were set once and must survive
+        if m0 == 5 || m0 == 7 {
+            match (m0, self.image_size, self.image_gap) {
+                (5, Some(s), _) => {
+                    b.image_size(s + 1.5);
+                }
+                (7, _, Some(g)) => {
+                    b.image_gap(g + 0.75);
+                }
+                _ => {}
+            }
+            return;
+        }
         let other = |c: &ColorSpec| -> [u8; 4] {
             match c {
                 ColorSpec::Rgb(x) => [x[0] ^ 0x5a, x[1].wrapping_add(91), !x[2], 255],
@@ -269,6 +283,18 @@ impl SvgCfg {
     fn warm_restore<B: Builder>(&self, b: &mut B, m0: usize) {
         b.margin(self.margin_eff());
         if m0 % 2 == 0 {
+            return;
+        }
+        if m0 == 5 || m0 == 7 {
+            match (m0, self.image_size, self.image_gap) {
+                (5, Some(s), _) => {
+                    b.image_size(s);
+                }
+                (7, _, Some(g)) => {
+                    b.image_gap(g);
+                }
+                _ => {}
+            }
             return;
         }
         let via = self.order / 7;
@@ -535,11 +561,15 @@ pub fn any_color() -> BoxedStrategy<ColorSpec> {
 pub fn image_string() -> BoxedStrategy<String> {
     let special = prop_oneof![
         Just("&"), Just("<"), Just(">"), Just("\""), Just("'"), Just("]]>"), Just("--"), Just("&amp;"), Just("&#x41;"), Just("&lt;"),
-        Just("\"/><script>"), Just("' onload='x"), Just("%20"), Just("é"), Just("中文"), Just("🚀"), Just(" "), Just("="), Just("?a=1&b=2"), Just("<!--"), Just("&&"), Just("\\")
+        Just("\"/><script>"), Just("' onload='x"), Just("%20"), Just("é"), Just("中文"), Just("🚀"), Just(" "), Just("="), Just("?a=1&b=2"), Just("<!--"), Just("&&"), Just("\\"),
+        // what template engines, format strings and shells treat as placeholders (URL templates such as tiles/{z}/{x}/{y}.png are real references)
+        Just("{x}"), Just("{y}"), Just("{size}"), Just("{0}"), Just("{}"), Just("{{"), Just("}}"), Just("%s"), Just("%d"), Just("$1"), Just("${x}"), Just("#{id}"), Just("{href}"), Just("{fill}"), Just("{width}"), Just("\\n")
     ];
     let base = prop_oneof![
         Just("https://example.com/logo.png".to_string()),
         Just("https://example.com/i?x=1&y=2".to_string()),
+        Just("https://tiles.example.com/{z}/{x}/{y}.png".to_string()),
+        Just("logo.png?s={size}&c={fill}".to_string()),
         Just("data:image/png;base64,iVBORw0KGgoAAAANSUhEUgAAABAAAAAQCAIAAACQkWg2AAAAFUlEQVR4AWP4oyVDEhrGGkY1jGoAABACQhA+7XDPAAAAAElFTkSuQmCC".to_string()),
         Just("./assets/logo.svg".to_string()),
         Just("C:\\Users\\me\\My Pictures\\logo.png".to_string()),
